@@ -1,4 +1,5 @@
 """C05 Indicator raw values equal the documented formulas (spec/I_*.tla via Trace_Ind, CHECK_VALUES)."""
+import os
 from verif import *
 import indfam
 
@@ -7,6 +8,13 @@ def run(chk):
     quick = chk.tier == "quick"
     yv = build_harness()
     files = indfam.record(chk, yv, "c05", 12 if quick else 48, 36, 60 if quick else 250)
+    # trading halts: the last close repeated as rangeless candles for 3..42 bars (exactly flat windows: zero volatility / zero range
+    # guards while the averages have not converged yet)
+    os.environ["YV_HALTS"] = "1"
+    try:
+        files += indfam.record(chk, yv, "c05halt", 4 if quick else 12, 36, 90 if quick else 300)
+    finally:
+        os.environ.pop("YV_HALTS", None)
     indfam.validate(chk, files, "values", "values")
     chk.sample({"direction": "B", "events": read_ndjson(files[0][0])[:2]})
     chk.assumptions += ["every indicator has a TLA+ module spec/I_<Name>.tla carrying its own state from init in exact fixed point",
